@@ -186,7 +186,8 @@ func SubtreeFillToLength(bottom Node, depth uint8, length uint64) (Node, error) 
 
 func SubtreeFillToContents(nodes []Node, depth uint8) (Node, error) {
 	if len(nodes) == 0 {
-		return nil, errors.New("no nodes to fill subtree with")
+		// nothing to fill in: the subtree is all padding, i.e. the zero subtree of this depth
+		return ZeroNode(uint32(depth)), nil
 	}
 	anchor := uint64(1) << depth
 	if uint64(len(nodes)) > anchor {
